@@ -62,15 +62,6 @@ theorem start_index_range (a : AttrVal) (s : Int) (w : Bool) (h : getStartIndex 
 
 /-! ## every encoding of a mesh decodes to the same faces -/
 
-/-- the hypotheses under which an encoding can represent the mesh at all -/
-def Enc.Admissible (e : Enc) (w : Nat) (faces : List (List Nat)) : Prop :=
-  (e.base = 0 ∨ e.base = 1) ∧ (e.spelling = .omitted → e.base = 0) ∧
-  (∀ f ∈ faces, f.length ≤ w) ∧
-  (match e.fill with
-    | .nan => True
-    | .attr F => ∀ f ∈ faces, ∀ v ∈ f, (v : Int) + e.base ≠ F   -- the fill value is not a stored index
-    | .none => ∀ f ∈ faces, f.length = w)                        -- no fill needed: every face is full width
-
 /-- **normalise (encode e mesh) = mesh**: for every mesh and every encoding
 (base 0 / 1, written as an integer, a string or omitted; missing entries as NaN, as an integer
 `_FillValue`, or not needed; either dimension first) `_to_index_array` returns the faces,
@@ -89,10 +80,11 @@ theorem normalise_encode (e : Enc) (fdim mdim : String) (hd : fdim ≠ mdim) (w 
     by_cases ht : e.transposed = true
     · have hne : mdim ≠ fdim := fun h => hd h.symm
       simp only [toIndexArray, encode, ht, if_true, hstart]
-      simp only [ne_eq, hd, not_false_eq_true, true_and, not_true_eq_false, and_false, if_false, hne, if_true]
+      simp only [ne_eq, hd, not_false_eq_true, not_true_eq_false, and_false, if_false, hne, if_true]
       rw [masked_transpose, hmask, transpose_transpose (by simp [encCells]) (encCells_rect e w faces hw), hsub]
-    · simp only [toIndexArray, encode, ht, hstart]
-      simp [hmask, hsub]
+    · have ht' : e.transposed = false := by simpa using ht
+      simp only [toIndexArray, encode, ht']
+      simp [hmask, hstart, hsub]
   · simp [facesOf, compress_pad]
 
 /-- **encoding independence**: two admissible encodings of the same mesh normalise to the
@@ -204,7 +196,7 @@ theorem face_edge_spec (w : Nat) (en : List Pair) (faces : List (List Int))
       ∀ i (hi : i < faces.length),
         ∃ row, fe[i]? = some row ∧ row.length = w ∧
           (∀ c (hc : c < (facePairs faces[i]).length),
-              ∃ k, row[c]? = some (some (k : Int)) ∧ ∃ hk : k < en.length,
+              ∃ k : Nat, row[c]? = some (some (k : Int)) ∧ ∃ hk : k < en.length,
                 normPair en[k] = normPair (facePairs faces[i])[c]) ∧
           (∀ c, faces[i].length ≤ c → c < w → row[c]? = some none) :=
   makeFaceEdge_spec w en faces hcover hw
